@@ -615,6 +615,44 @@ func body(r *explore.Run, rep *report.R, st site) {
 			return simkube.OK
 		})
 	}
+	// The dual for a target that does not exist yet: a foreign controller
+	// creates it (its own content, its own controller reference) just before
+	// the k-th API call (reads and dry runs included) that addresses the
+	// target's key. From then on it is a foreign-controlled object. Creating
+	// on top of an existing object is refused by every API server, so this is
+	// no unconditioned-write race and all sites with a known target name take
+	// part. (The namesake site's absent row is the desired-name-collision
+	// site's.)
+	createAt, created := 0, false
+	if pre == preAbsent && !st.generatedName && !strings.Contains(st.name, "namesake") {
+		createAt = r.Free(7, "foreign-creation-before-call")
+	}
+	if createAt > 0 {
+		// What the foreigner creates: the site's own foreign-placement fixture.
+		w2 := &world{s: xrh.NewStore(), xrd: xrh.XRD()}
+		w2.s.Seed(w2.xrd.DeepCopy())
+		t2, _, _ := st.build(w2, preForeign)
+		theirs := w2.s.Peek(t2)
+		if t2 != target || theirs == nil || metav1.GetControllerOf(theirs) == nil || metav1.GetControllerOf(theirs).UID != foreign.UID {
+			panic(explore.HarnessError{Msg: "preparation: no foreign-controlled fixture for " + st.name})
+		}
+		theirs.SetUID("")
+		theirs.SetResourceVersion("")
+		n := 0
+		w.s.Inj = simkube.InjectorFn(func(c simkube.Call) simkube.Outcome {
+			if c.Key == target && !created {
+				n++
+				if n == createAt && w.s.Peek(target) == nil {
+					w.s.Seed(theirs.DeepCopy())
+					created = true
+					before = w.s.Peek(target)
+					logStart = len(w.s.Log)
+					r.Logf("  foreign controller creates %s before %s", target, c)
+				}
+			}
+			return simkube.OK
+		})
+	}
 	var errs []string
 	requeued := false
 	stale := pre == preStaleOwned || pre == preStaleUncontrolled
@@ -697,6 +735,13 @@ func body(r *explore.Run, rep *report.R, st site) {
 		check("/adopted-mid-reconcile-was-"+kind, false)
 		run(2)
 		check("/after-adoption-mid-reconcile-was-"+kind, true)
+	case created:
+		// The create / apply that was in flight when the foreigner created the
+		// object must not land on it; later rounds see the plain foreign
+		// placement.
+		check("/created-mid-reconcile", false)
+		run(2)
+		check("/after-creation-mid-reconcile", true)
 	case stale:
 		// While the cache is behind, the target must stay untouched; a write
 		// refused with a conflict may be answered by an immediate requeue
@@ -712,6 +757,12 @@ func body(r *explore.Run, rep *report.R, st site) {
 		r.Logf("after the cache caught up: errs=%v warnings=%v unsynced=%v", errs, w.warnings, unsynced())
 		check("/after-stale-cache-saw-"+kind, true)
 	}
+	// A creation point the reconcile never reached (or reached after the site
+	// had created the target itself) is the plain absent row again.
+	createdAt := 0
+	if created {
+		createdAt = createAt
+	}
 	after := w.s.Peek(target)
 	var writes []string
 	for _, wr := range w.s.Log[logStart:] {
@@ -722,7 +773,7 @@ func body(r *explore.Run, rep *report.R, st site) {
 	// Vacuity guard: when the target is absent or already ours the site does
 	// write / keep it (so the foreign case above is not passing because the
 	// site never runs).
-	if !adopted && !handedOver && (pre == preOwned || (pre == preAbsent && !st.generatedName)) && !strings.Contains(st.name, "garbage-collection") {
+	if !adopted && !handedOver && !created && (pre == preOwned || (pre == preAbsent && !st.generatedName)) && !strings.Contains(st.name, "garbage-collection") {
 		if after == nil {
 			r.Failf("harness/site-not-exercised/"+st.name, "with the target %s the %s site did not create / keep %s (errs %v, warnings %v)", preNames[pre], st.name, target, errs, w.warnings)
 		}
@@ -730,7 +781,7 @@ func body(r *explore.Run, rep *report.R, st site) {
 	if !adopted && !handedOver && strings.Contains(st.name, "garbage-collection") && (pre == preOwned || pre == preUncontrolled) && after != nil && after.GetDeletionTimestamp() == nil {
 		r.Failf("harness/site-not-exercised/"+st.name, "the %s site did not garbage collect its own / an uncontrolled object (errs %v)", st.name, errs)
 	}
-	rep.Eval(st.name, report.Hash(st.name, pre, after != nil, len(errs) > 0, len(w.warnings) > 0), report.Hash(st.name, pre, rounds, adoptAt, namesake, handedOver))
+	rep.Eval(st.name, report.Hash(st.name, pre, after != nil, len(errs) > 0, len(w.warnings) > 0), report.Hash(st.name, pre, rounds, adoptAt, namesake, handedOver, createdAt))
 	if rep.WantSample() && (pre == preForeign || pre >= preStaleOwned) {
 		rep.Sample(map[string]any{"site": st.name, "pre_state": preNames[pre], "rounds": rounds, "errors": errs, "warnings": w.warnings, "writes_on_target": writes})
 	}
@@ -746,7 +797,7 @@ func canonical(u *unstructured.Unstructured) string {
 func TestCheck(t *testing.T) {
 	rep := report.New("C02", "exploration")
 	rep.Meta(
-		"Table: 19 write sites (function composer: referenced object / desired-name collision / the same with the object composed by an XR of the same kind and name in another API group / garbage collection; P&T composer: referenced object / name fixed by the template / removed template; XR connection secret; claim connection secret with both syncers; XRD->composite CRD and claim CRD; package->revision; active revision establishing an object; RBAC provider system and edit roles, binding; XRD roles) x target pre-state {absent, uncontrolled, controlled by the owner, controlled by a foreign UID (an unrelated object, or a namesake of the owner with another UID); for the composer sites also: adopted by a foreign UID while the controller's cache still serves the version it owned / that was uncontrolled} x 1..3 reconcile rounds, each run on the real reconciler over simkube. Foreign: target byte-identical, no effective non-dry-run write in the write log, conflict surfaced (returned error, warning event or unsynced condition). Absent / owned rows are controls showing the site does write. Non-trivial: every row (distinct by site, pre-state, rounds).",
+		"Table: 19 write sites (function composer: referenced object / desired-name collision / the same with the object composed by an XR of the same kind and name in another API group / garbage collection; P&T composer: referenced object / name fixed by the template / removed template; XR connection secret; claim connection secret with both syncers; XRD->composite CRD and claim CRD; package->revision; active revision establishing an object; RBAC provider system and edit roles, binding; XRD roles) x target pre-state {absent, uncontrolled, controlled by the owner, controlled by a foreign UID (an unrelated object, or a namesake of the owner with another UID); for the composer sites also: adopted by a foreign UID while the controller's cache still serves the version it owned / that was uncontrolled} x 1..3 reconcile rounds; for an absent target with a known name also: a foreign controller creates it (the foreign-placement fixture) just before the k-th API call addressing its key, k = 1..6; each run on the real reconciler over simkube. Foreign: target byte-identical, no effective non-dry-run write in the write log, conflict surfaced (returned error, warning event or unsynced condition). Absent / owned rows are controls showing the site does write. Non-trivial: every row (distinct by site, pre-state, rounds).",
 		[]string{"simkube models the API server and enforces 'at most one controller reference' with the real ValidateOwnerReferences (the server-side-apply composer relies on that refusal)", "claim->XR binding (a claim reference, not a controller reference) is covered by C06; establishing into objects of other package revisions by C16"},
 		[]string{"simkube", "structured-merge-diff (real)"},
 	)
